@@ -7,7 +7,7 @@ len(payload) - which covers every payload length.  Plus structural rules on
 what ``send_message`` encrypts / MACs and on the algorithm tables.
 """
 import ast
-from ..core.model import AnalysisError, unparse, dotted
+from ..core.model import AnalysisError, unparse, dotted, walk_no_defs
 from ..core.consts import Folder, is_sym
 from ..core.absint import ResidueEval, Lin, Byt, Packed
 from ..core.flow import Flow, attr_writes
@@ -253,3 +253,58 @@ def run(prog, chk):
         got.setdefault(t.attr, []).append(unparse(val))
     for fld, par in sorted(want.items()):
         chk.ob("R5.setter", fld, got.get(fld) == [par], so.loc, "%s <- %s" % (fld, got.get(fld)))
+    # ---- R6 the whole framed packet reaches the socket (write_all) -----------------------------------------
+    _check_write_all(prog, chk)
+
+
+def _check_write_all(prog, chk):
+    """The length field describes what is written only if write_all writes all of it: the cursor that advances
+    through `out` must be (re)defined on every path of each iteration before it is used, its only sources are the
+    count send() returned, 0 for a retry and a negative value that raises, and the loop ends only when nothing is
+    left."""
+    from ..core.cfg import assigned_names
+    wa = prog.func("Packetizer.write_all")
+    fl = Flow(prog, wa, implicit=True)
+    outp = wa.params()[1]
+    loops = [n for n in walk_no_defs(wa.node) if isinstance(n, ast.While)]
+    if len(loops) != 1:
+        raise AnalysisError("Packetizer.write_all", "expected one send loop, found %d" % len(loops))
+    lp = loops[0]
+    adv = [s for s in walk_no_defs(lp) if isinstance(s, ast.Assign) and unparse(s.targets[0]) == outp]
+    if len(adv) != 1 or M.slice_of(adv[0].value) is None or unparse(M.slice_of(adv[0].value)[0]) != outp or M.slice_of(adv[0].value)[2] is not None:
+        raise AnalysisError("Packetizer.write_all", "cursor advance `out = out[n:]` not recognised")
+    cur = M.slice_of(adv[0].value)[1]
+    heads = [n for n in fl.cfg.nodes_for(lp) if n.kind == "loop_head"]
+    test_nodes = [n for n in fl.nodes(lambda n: n.kind == "cond" and n.ast is lp.test)]
+    body_entry = [d for t in test_nodes for (d, lab) in fl.cfg.succ[t.id] if lab == "T"]
+    in_loop = set(id(x) for x in walk_no_defs(lp))
+    defs_in_body = [n for n in fl.cfg.nodes if n.id in fl.live and n.ast is not None and cur in assigned_names(n)
+                    and (id(n.ast) in in_loop or any(id(x) in in_loop for x in [n.ast]))]
+    uses = [n for n in fl.cfg.nodes if n.id in fl.live and n.ast is not None and n.kind in ("stmt", "cond")
+            and id(n.ast) in in_loop | set(id(x) for s in walk_no_defs(lp) for x in ast.walk(s))
+            and any(isinstance(x, ast.Name) and x.id == cur and isinstance(x.ctx, ast.Load) for x in ast.walk(n.ast))
+            and cur not in (assigned_names(n) if n.kind == "stmt" and not isinstance(n.ast, ast.AugAssign) and n.ast is not adv[0] else ())]
+    chk.floor("R6", "uses of the write cursor", len(uses), 3)
+    defids = set(d.id for d in defs_in_body)
+    # an assignment defines the cursor only when it completes: its exception edge (send() raising) does not
+    completes = lambda s_, lab, d_: s_ in defids and lab not in ("exc", "raise")
+    # path-sensitive in the boolean flags the loop body sets to constants (retry_write): the arm a flag selects is followed
+    flags = sorted(set(t.id for x in walk_no_defs(lp) if isinstance(x, ast.Assign) and isinstance(x.value, ast.Constant) and isinstance(x.value.value, bool)
+                       for t in x.targets if isinstance(t, ast.Name)))
+    bad = [u for u in uses if u.id not in defids and not fl.dominated_ps([u], flags, guard_edge=completes, start=body_entry)]
+    chk.ob("R6.cursor-defined-in-this-iteration", "write_all:%s" % cur, not bad, wa.loc,
+           "every use of %s in the loop is preceded, within the same iteration, by an assignment%s" % (
+               cur, "" if not bad else "; not so at %s: a count left over from an earlier iteration (or from before the loop) would advance the cursor "
+               "past bytes that were never written - the peer then sees a packet shorter than its length field" % ", ".join(fl.where(u) for u in bad)))
+    srcs = sorted(set(unparse(d.ast.value) for d in defs_in_body if isinstance(d.ast, ast.Assign)))
+    oksrc = all(s in ("self.__socket.send(%s)" % outp, "0", "-1") for s in srcs) and "self.__socket.send(%s)" % outp in srcs
+    chk.ob("R6.cursor-sources", "write_all:%s" % cur, oksrc, wa.loc, "%s <- %s (send()'s count, 0 for a retry, -1 to give up)" % (cur, srcs))
+    advn = [n for n in fl.cfg.nodes_for(adv[0])][0]
+    g = fl.edge_guard(lambda t: unparse(t) in ("%s < 0" % cur, "0 > %s" % cur), "F")
+    chk.ob("R6.negative-count-raises", "write_all", fl.dominated([advn], guard_edge=g), wa.loc, "the cursor advances only after `%s < 0` was tested false (true arm raises EOFError)" % cur)
+    # normal exits: the loop test fails (nothing left) or the break under n == len(out)
+    brks = [n for n in fl.nodes(lambda n: n.kind == "break")]
+    okb = all(fl.dominated([b], guard_edge=fl.edge_guard(lambda t: unparse(t) in ("%s == len(%s)" % (cur, outp), "len(%s) == %s" % (outp, cur)), "T")) for b in brks)
+    rets = [n for n in fl.nodes(lambda n: n.kind == "return") if id(n.ast) in set(id(x) for x in walk_no_defs(lp))]
+    chk.ob("R6.loop-ends-only-when-all-written", "write_all", okb and not rets and unparse(lp.test) in ("len(%s) > 0" % outp, outp), wa.loc,
+           "loop test `%s`; %d break(s) all under `%s == len(%s)`; no return inside the loop" % (unparse(lp.test), len(brks), cur, outp))
